@@ -55,6 +55,8 @@ CFGS = {
     "upper": {"elements": UPPER_ELEMENTS, "pseudo": UPPER_PSEUDO, "repl": UPPER_REPL, "surface": "#", "grain": "GRAIN"},
     # UCLCHEM-style upper-case symbols together with the Leeds surface prefix `G` and the third-body marker `M`: `MG` is magnesium
     "upper-G": {"elements": UPPER_ELEMENTS, "pseudo": UPPER_PSEUDO + ["M"], "repl": UPPER_REPL, "surface": "G", "grain": "GRAIN"},
+    # an upper-case list whose replacement table covers some symbols only: the others are brought to standard case by the alias itself
+    "upper-partial": {"elements": UPPER_ELEMENTS, "pseudo": UPPER_PSEUDO, "repl": {"E": "e", "HE": "He"}, "surface": "#", "grain": "GRAIN"},
     # isotopes as elements of their own: symbols that start with digits
     "isotopes": {"elements": DEFAULT_ELEMENTS + ["13C", "18O", "15N"], "pseudo": DEFAULT_PSEUDO, "repl": {}, "surface": "#", "grain": "GRAIN"},
     # a user list of elements and *no* pseudo-elements: the default labels (o, p, m, CR, X, ...) are not configured
@@ -169,6 +171,28 @@ def impl_species(cfgname, name):
         return {"error": type(e).__name__, "msg": str(e)[:120]}
 
 
+def mass_table_check(chk):
+    """mass numbers (protons + neutrons) of species over every tabulated isotope and a few heavy molecules: each table row counts,
+    the last one of a file included"""
+    from naunet.species import Species
+    cfg = {"elements": DEFAULT_ELEMENTS + ["T", "He3"], "pseudo": DEFAULT_PSEUDO, "repl": {}}
+    configure(cfg)
+    want = {"D": 2, "T": 3, "He3": 3, "HD": 3, "HT": 4, "T2": 6, "He3+": 3, "He3H+": 4, "#He3": 3, "D2O": 20, "DT": 5, "Cl2": 70, "C60": 720,
+            "C60-": 720, "CCl4": 152, "Mg2+": 48, "MgCl": 59, "SiCl+": 63, "Ni2": 118, "#S8": 256, "Fe2O3": 160, "NaCl": 58, "ArH+": 41, "CaF2": 78}
+    for name, a in want.items():
+        chk.count(("mass-table", name), nontrivial=True)
+        try:
+            with silenced():
+                got = Species(name).massnumber
+        except Exception as e:
+            chk.violation({"kind": "valid-rejected", "cfg": "all-isotopes"}, f"name {name!r} was rejected: {e}", input=name)
+            return
+        if abs(got - a) > 1e-9:
+            chk.violation({"kind": "misread", "cfg": "all-isotopes", "field": "mass number"},
+                          f"name {name!r}: mass number read as {got!r}, it is {a} (protons + neutrons of every atom)", input=name)
+            return
+
+
 def run_c08(argv):
     tier, seed = tier_and_seed(argv)
     chk = Check("C08", tier, seed, ["NaunetProps.C08"], C08_THEOREMS, C08_RULE)
@@ -263,6 +287,7 @@ def run_c08(argv):
                     chk.corr_break("species-attrs", {"cfg": cfgname, "name": n}, mm, ii)
                 else:
                     chk.traces += 1
+    mass_table_check(chk)
     return chk.finish()
 
 
@@ -271,7 +296,7 @@ def run_c08(argv):
 C_IDENT = re.compile(r"[A-Za-z_][A-Za-z_0-9]*\Z")
 
 NETS = {
-    "ions": (["H", "H+", "H-", "He", "He+", "He++", "Si", "Si+", "Si++++", "e-", "C", "C-", "O--"], "default"),
+    "ions": (["H", "H+", "H-", "He", "He+", "He++", "Si", "Si+", "Si++++", "e-", "C", "C-", "C--", "O-", "O--"], "default"),
     "labels": (["oH2", "pH2", "oH2D+", "pH2D+", "mD3+", "H", "D", "e-", "H2"], "default"),
     "ice": (["CO", "#CO", "H2O", "#H2O", "#CH4", "CH4", "H", "#H", "GRAIN0", "GRAIN-", "e-"], "default"),
     "electron-twice": (["e-", "E", "H+", "H", "He+", "He"], "default"),
@@ -279,6 +304,7 @@ NETS = {
     "electron-E": (["E", "H+", "H", "He+", "He", "H2", "H2+", "D", "HD"], "default"),          # the KROME spelling alone
     "electron-E-": (["E-", "H+", "H", "C+", "C", "CO"], "default"),
     "upper": (["HE", "HE+", "MG", "MG+", "SI", "SIO", "H", "E-", "CL", "HCL", "#SIO"], "upper"),
+    "upper-partial": (["HE", "HE+", "MG", "MG+", "SI", "SIO", "H", "E-", "CL", "HCL"], "upper-partial"),
     "upper-ions": (["S", "S+", "S++", "SI", "SI+", "SIO", "H", "HE", "HE+", "E-", "C", "C+", "CL", "CL+", "MG", "MG+", "HS", "HS+", "CS"], "upper"),
     "excited": (["H2", "H2*", "H", "c-C3H2", "l-C3H", "C", "e-"], "default"),     # F9
     "grain-two-spellings": (["GRAIN", "GRAIN0", "GRAIN-", "H+", "H", "e-"], "default"),  # F10
@@ -482,6 +508,7 @@ def run_c09(argv):
                 break
             if ref_alias is None:
                 ref_alias = idents
+                descs[label]["idents"] = list(idents)
             elif ref_alias != idents:
                 chk.violation({"kind": "artefacts-differ", "pair": "backends"}, "index macros differ between back-ends", input=show)
                 break
@@ -541,6 +568,12 @@ def cross_process_order(chk, descs, tier):
             for l, line in zip(labels, lines):
                 got = json.loads(line)
                 chk.hist["cross-process-orders"] += 1
+                if got.get("enzo") is not None and descs[l].get("idents") and ["IDX_" + a for a in got["enzo"]] != descs[l]["idents"]:
+                    chk.violation({"kind": "artefacts-differ", "pair": "macros/enzo-other-process"},
+                                  f"network {l}: the per-species table of the enzo patch rendered in a process of its own (`naunet render "
+                                  f"--patch enzo`) names {got['enzo'][:8]}…, the index macros of the library are {descs[l]['idents'][:8]}…",
+                                  input={"network": l, "reactions": descs[l]["reactions"][:8]})
+                    break
                 if got.get("species") != descs[l]["order"]:
                     chk.violation({"kind": "order-depends-on-process", "net": l if not l.startswith("random") else "random"},
                                   f"network {l}: a second interpreter process (PYTHONHASHSEED={hs}) orders the species differently, so "
